@@ -7,7 +7,7 @@ fn q(sql: String, txn: u32) -> Step {
 }
 
 /// A worker program: `n` transactions of mixed shapes with think times.
-fn worker_prog(p: &mut Prog, rng: &mut Rng, n: u64, think: (u64, u64), allow_ext: bool) {
+pub fn worker_prog(p: &mut Prog, rng: &mut Rng, n: u64, think: (u64, u64), allow_ext: bool) {
     for _ in 0..n {
         p.new_txn();
         match rng.below(4) {
